@@ -81,7 +81,8 @@ fn exec_img(case: &Value) -> Value {
     let faces: Vec<Tri<usize>> = (0..tris_in.len()).map(|t| Tri([3 * t, 3 * t + 1, 3 * t + 2])).collect();
     let kind = gs(case, "kind");
     let via = gs(case, "via");
-    let ctx = mk_ctx(&json!({"cull": 0, "sort": 0, "test": 1, "cw": 1, "dw": 1}), Stats::new());
+    let cull = case.get("cull").and_then(|v| v.as_i64()).unwrap_or(0);
+    let ctx = mk_ctx(&json!({"cull": cull, "sort": 0, "test": 1, "cw": 1, "dw": 1}), Stats::new());
     let mut fb = Framebuf {
         color_buf: Buf2::new_from((bw, bh), std::iter::repeat(word(SENT).to_argb_u32())),
         depth_buf: Buf2::new_from((bw, bh), std::iter::repeat(0.0f32)),
@@ -151,6 +152,13 @@ fn exec_img(case: &Value) -> Value {
     for t in 0..tris_in.len() {
         let tri = Tri([0, 1, 2].map(|i| ClipVert::new(verts[3 * t + i].clone())));
         let mut out = vec![];
+        // fan edges of culled faces are not drawn: they make nothing ambiguous
+        let v = |i: usize| tris_in[t]["v"][i].as_array().unwrap().iter().map(|c| c.as_i64().unwrap()).collect::<Vec<_>>();
+        let (a, b, c) = (v(0), v(1), v(2));
+        let det = a[0] * (b[1] * c[3] - b[3] * c[1]) - a[1] * (b[0] * c[3] - b[3] * c[0]) + a[3] * (b[0] * c[1] - b[1] * c[0]);
+        if (cull == 1 && det > 0) || (cull == 2 && det <= 0) {
+            continue;
+        }
         view_frustum::clip(&[tri][..], &mut out);
         if out.len() > 1 {
             // every edge of an output triangle that is shared with another one
@@ -319,8 +327,10 @@ fn gen_img(args: &Args, out: &mut dyn Write) {
         let kind = if i % 7 == 3 { "col" } else { "fb" };
         let via = *rng.pick(&["render", "render", "batch", "camera"]);
         let sc = *rng.pick(&[0i64, 0, 0, -10, -16, 8]);
+        // face culling: none / back faces (the default context) / front faces
+        let cull = (i / 2) % 3;
         writeln!(out, "{}", json!({"k": format!("i{}-{}", args.seed, i), "op": "img", "bw": bw, "bh": bh, "vp": vp,
-            "tris": tris, "kind": kind, "via": via, "sc": sc})).unwrap();
+            "tris": tris, "kind": kind, "via": via, "sc": sc, "cull": cull})).unwrap();
     }
 }
 
